@@ -1,6 +1,7 @@
 package vc
 
 import (
+	"strings"
 	"fmt"
 	"go/types"
 
@@ -115,6 +116,69 @@ func (vc *VC) setHeap(st *State, key, term string) {
 // Next yields an arbitrary (ok, key, value) consistent with the container.
 func (f *frame) execRange(x *ssa.Range, in string, st *State) {
 	f.vals[x] = Val{T: f.val(x.X).T, Typ: x.X.Type()}
+	if _, isMap := x.X.Type().Underlying().(*types.Map); isMap {
+		// ghost "visited" key set of this iteration, kept at a fixed ghost cell
+		// of the key-presence heap; starts empty
+		vc := f.vc
+		_, mp, ks, _ := vc.mapHeaps(x.X.Type())
+		loc := f.visLocOf(x)
+		e := vc.fresh(f.prefix+x.Name()+"_vis0", fmt.Sprintf("(Array %s Bool)", ks))
+		sel := App("select", e, "k!")
+		vc.assert(fmt.Sprintf("(forall ((k! %s)) (! (not %s) :pattern (%s)))", ks, sel, sel))
+		st.H[mp] = vc.define(f.prefix+"hVis", vc.heapSort(mp), App("store", vc.heapOf(st, mp), loc, e))
+	}
+}
+
+func (f *frame) visLocOf(x *ssa.Range) string {
+	return f.vc.fixedLoc("vis:"+f.prefix+x.Name(), true)
+}
+
+// mapModifiedInLoopOf: does the loop around the Next of range r update or
+// delete from a map of the same type (then exhaustiveness of the iteration is
+// not assumed)?
+func (f *frame) mapModifiedAround(x *ssa.Next, mt types.Type) bool {
+	for _, li := range f.loops {
+		if !li.blocks[x.Block()] {
+			continue
+		}
+		for b := range li.blocks {
+			for _, ins := range b.Instrs {
+				switch y := ins.(type) {
+				case *ssa.MapUpdate:
+					if types.Identical(y.Map.Type(), mt) {
+						return true
+					}
+				case *ssa.Call:
+					if bi, ok := y.Call.Value.(*ssa.Builtin); ok && (bi.Name() == "delete" || bi.Name() == "clear") && len(y.Call.Args) > 0 && types.Identical(y.Call.Args[0].Type(), mt) {
+						return true
+					}
+					if _, ok := y.Call.Value.(*ssa.Builtin); !ok {
+						// a call may reach the map: be conservative unless the callee is known not to write maps
+						if callee := y.Call.StaticCallee(); callee == nil || !f.vc.calleeLeavesMapsAlone(callee) {
+							return true
+						}
+					}
+				}
+			}
+		}
+	}
+	return false
+}
+
+func (vc *VC) calleeLeavesMapsAlone(callee *ssa.Function) bool {
+	if spec := vc.Eng.Spec.Funcs[FuncName(callee)]; spec != nil && spec.HasAssign {
+		for _, c := range spec.Assigns {
+			if strings.Contains(c.Text, "mapof(") {
+				return false
+			}
+		}
+		return true
+	}
+	full := callee.RelString(nil)
+	if o := callee.Origin(); o != nil {
+		full = o.RelString(nil)
+	}
+	return vc.isPureExternal(full)
 }
 
 func (f *frame) execNext(x *ssa.Next, in string, st *State) {
@@ -138,6 +202,20 @@ func (f *frame) execNext(x *ssa.Next, in string, st *State) {
 	vn := vc.define(f.prefix+x.Name()+"_v", vc.sorts.SortOf(m.Elem()), g.T)
 	vc.assumeTypeInv(vn, m.Elem(), And(in, ok), st.Top)
 	vc.assume(And(in, ok), App(">", vc.mapLen(st, Val{T: it.T, Typ: mt}), "0"))
+	if rg, isRange := x.Iter.(*ssa.Range); isRange {
+		// visited set: the yielded key is new; when the iteration ends every
+		// present key has been yielded (unless the loop may change the key set)
+		_, mp, ks, _ := vc.mapHeaps(mt)
+		loc := f.visLocOf(rg)
+		vis := vc.define(f.prefix+x.Name()+"_vis", fmt.Sprintf("(Array %s Bool)", ks), App("select", vc.heapOf(st, mp), loc))
+		vc.assume(And(in, ok), Not(App("select", vis, kv.T)))
+		if !f.mapModifiedAround(x, mt) {
+			hk := vc.mapHas(st, Val{T: it.T, Typ: mt}, "k!")
+			vc.assume(And(in, Not(ok)), fmt.Sprintf("(forall ((k! %s)) (! (=> %s (select %s k!)) :pattern ((select %s k!))))", ks, hk, vis, vis))
+			vc.note("range over map in %s: exhaustive (the loop does not change the key set); ghost visited set available as visited(k)", FuncName(f.fn))
+		}
+		st.H[mp] = vc.define(f.prefix+"hVis", vc.heapSort(mp), App("store", vc.heapOf(st, mp), loc, Ite(ok, App("store", vis, kv.T, "true"), vis)))
+	}
 	vc.note("range over map in %s: each iteration yields an arbitrary present key (order and exhaustiveness abstracted)", FuncName(f.fn))
 	f.vals[x] = Val{Typ: x.Type(), Tuple: []Val{{T: ok, Typ: tup.At(0).Type()}, {T: kv.T, Typ: tup.At(1).Type()}, {T: vn, Typ: tup.At(2).Type()}}}
 }
